@@ -79,6 +79,14 @@ pub enum Key {
     BetaGamma,
     Delta,
 }
+/// Newtype structs in map-key position (a key is deserialized like any other
+/// value: through the type's own Deserialize impl).
+#[derive(serde::Serialize, Deserialize, PartialEq, Eq, PartialOrd, Ord, Hash, Debug, Clone)]
+pub struct NameKey(pub String);
+#[derive(serde::Serialize, Deserialize, PartialEq, Eq, PartialOrd, Ord, Hash, Debug, Clone)]
+pub struct IdKey(pub u16);
+#[derive(serde::Serialize, Deserialize, PartialEq, Eq, PartialOrd, Ord, Hash, Debug, Clone)]
+pub struct WrappedKey(pub Key);
 #[derive(serde::Serialize, Deserialize, PartialEq, Debug, Clone)]
 pub struct Nested {
     pub p: Point,
@@ -179,7 +187,7 @@ fn g_tree() -> BS<Tree> {
 
 /// Visit every type of the family with its strategy.
 /// number of `visit` calls made by [`for_each_type`]
-pub const N_FAM_TYPES: usize = 49;
+pub const N_FAM_TYPES: usize = 52;
 
 pub fn for_each_type<V: TypeVisitor>(v: &mut V) {
     v.visit::<i8>("i8", ints(i8::MIN as i128, i8::MAX as i128));
@@ -221,6 +229,9 @@ pub fn for_each_type<V: TypeVisitor>(v: &mut V) {
     v.visit::<BTreeMap<String, Vec<u8>>>("BTreeMap<String,Vec<u8>>", btree_map(g_str(), vec(any::<u8>(), 0..3), 0..5).boxed());
     v.visit::<BTreeMap<Key, Option<u8>>>("BTreeMap<Key,Option<u8>>", btree_map(g_key(), proptest::option::of(any::<u8>()), 0..4).boxed());
     v.visit::<HashMap<String, i32>>("HashMap<String,i32>", hash_map(g_str(), any::<i32>(), 0..5).boxed());
+    v.visit::<BTreeMap<NameKey, u8>>("BTreeMap<NameKey,u8>", btree_map(g_str().prop_map(NameKey), any::<u8>(), 0..4).boxed());
+    v.visit::<BTreeMap<IdKey, String>>("BTreeMap<IdKey,String>", btree_map(any::<u16>().prop_map(IdKey), g_str(), 0..4).boxed());
+    v.visit::<BTreeMap<WrappedKey, Option<i8>>>("BTreeMap<WrappedKey,Option<i8>>", btree_map(g_key().prop_map(WrappedKey), proptest::option::of(any::<i8>()), 0..4).boxed());
     v.visit::<Point>("Point", g_point());
     v.visit::<WithOpt>(
         "WithOpt",
